@@ -1,4 +1,4 @@
-CONSTANT Cfg <- Cfg_recursive
+CONSTANT CfgSet <- S_recursive
 INIT MCInit
 NEXT Next
 CHECK_DEADLOCK FALSE
